@@ -152,9 +152,10 @@ class SourceIndex:
 
     def record(self, relpath, node, qualname):
         text = self.files[relpath][1]
-        seg = "\n".join(text.splitlines()[node.lineno - 1:node.end_lineno])
+        lo, hi = (1, len(text.splitlines())) if isinstance(node, ast.Module) else (node.lineno, node.end_lineno)
+        seg = "\n".join(text.splitlines()[lo - 1:hi])
         self.extracted[qualname] = {
-            "file": relpath, "lines": [node.lineno, node.end_lineno],
+            "file": relpath, "lines": [lo, hi],
             "sha256": hashlib.sha256(seg.encode()).hexdigest()}
 
 
